@@ -47,11 +47,14 @@ theorem utxoSat_of_no_entries (cfg : Cfg) (st : State) (hp : InsPartitioned cfg 
     have := hp.perm
     rw [hz] at this
     exact List.perm_nil.1 (by simpa using this)
-  intro p hp' seq off hm
-  have : seq ∈ allSeqs st.utxo :=
-    (InsLift.mem_allSeqs _ _).2 ⟨p.1, off, (mem_allIns _ _ _ _).2 ⟨p.2, hp', hm⟩⟩
-  rw [hnil] at this
-  cases this
+  have hno : ∀ p ∈ st.utxo, ∀ seq off, (seq, off) ∈ p.2.ins → False := by
+    intro p hp' seq off hm
+    have : seq ∈ allSeqs st.utxo :=
+      (InsLift.mem_allSeqs _ _).2 ⟨p.1, off, (mem_allIns _ _ _ _).2 ⟨p.2, hp', hm⟩⟩
+    rw [hnil] at this
+    cases this
+  intro p hp'
+  exact ⟨fun _ seq off hm => (hno p hp' seq off hm).elim, fun _ seq off hm => (hno p hp' seq off hm).elim⟩
 
 /-! ### the chain -/
 
@@ -101,12 +104,47 @@ theorem onSat_of_utxoSat (cfg : Cfg) (st : State) (hU : UtxoSat st) (hp : InsPar
   have hmem : i ∈ allSeqs st.utxo := (InsLift.mem_range_of_perm hp.perm).2 hlt
   obtain ⟨o, off, hl⟩ := (InsLift.mem_allSeqs _ _).1 hmem
   obtain ⟨e, he, hin⟩ := (mem_allIns _ _ _ _).1 hl
-  obtain ⟨entry', h1, h2⟩ := hU (o, e) he i off hin
-  rw [hi] at h1
-  obtain rfl := Option.some.inj h1
   refine ⟨⟨o, off⟩, e, hp.sp_of_listed o i off hl, AL.get_of_mem hn he, ?_⟩
   rw [insloc_den_eq]
-  exact h2 s hsat
+  by_cases ho : o = OutPoint.unbound
+  · obtain ⟨entry', h1, h2⟩ := (hU (o, e) he).2 ho i off hin
+    rw [hi] at h1
+    obtain rfl := Option.some.inj h1
+    rw [hsat] at h2; cases h2
+  · obtain ⟨entry', s', h1, h2, h3⟩ := (hU (o, e) he).1 ho i off hin
+    rw [hi] at h1
+    obtain rfl := Option.some.inj h1
+    rw [hsat] at h2
+    obtain rfl := Option.some.inj h2
+    exact h3
+
+/-- rows + C04's partition ⇒ (sat index on) an inscription has no sat exactly when it is located at
+the unbound pseudo-output -/
+theorem unbound_iff_of_utxoSat (cfg : Cfg) (st : State) (hU : UtxoSat st) (hp : InsPartitioned cfg st)
+    (i : Nat) (entry : InsEntry) (hi : st.entries[i]? = some entry) :
+    entry.sat = none ↔ ∃ off, AL.get st.seq2sp i = some ⟨OutPoint.unbound, off⟩ := by
+  have hlt : i < st.entries.length := (List.getElem?_eq_some_iff.1 hi).1
+  have hmem : i ∈ allSeqs st.utxo := (InsLift.mem_range_of_perm hp.perm).2 hlt
+  obtain ⟨o, off, hl⟩ := (InsLift.mem_allSeqs _ _).1 hmem
+  obtain ⟨e, he, hin⟩ := (mem_allIns _ _ _ _).1 hl
+  have hsp := hp.sp_of_listed o i off hl
+  constructor
+  · intro hnone
+    by_cases ho : o = OutPoint.unbound
+    · subst ho; exact ⟨off, hsp⟩
+    · obtain ⟨entry', s', h1, h2, _⟩ := (hU (o, e) he).1 ho i off hin
+      rw [hi] at h1
+      obtain rfl := Option.some.inj h1
+      rw [hnone] at h2; cases h2
+  · rintro ⟨off', hg⟩
+    rw [hsp] at hg
+    have ho : o = OutPoint.unbound := by
+      have := Option.some.inj hg
+      exact congrArg SatPoint.outpoint this
+    obtain ⟨entry', h1, h2⟩ := (hU (o, e) he).2 ho i off hin
+    rw [hi] at h1
+    obtain rfl := Option.some.inj h1
+    exact h2
 
 theorem chainPlain_of_insChain {chain : List Block} (hc : InsLift.InsChain chain) : ChainPlain chain :=
   fun b hb => ⟨hc.cond.txidsNonzero b hb, hc.cond.noSpecialSpend b hb⟩
@@ -117,5 +155,14 @@ theorem run_onSat (cfg : Cfg) (hs : cfg.indexSats = true) (chain : List Block) (
   have hU := run_utxoSat cfg hs chain st evs hc.ok (chainPlain_of_insChain hc) h
   have hI := (InsLift.run_chainInv cfg chain st evs hc.ok h).1
   exact onSat_of_utxoSat cfg st hU hI.part hI.tinv.nodup
+
+/-- **no sat ⇔ at the unbound pseudo-output**, for reachable states (sat index on) -/
+theorem run_unbound_iff (cfg : Cfg) (hs : cfg.indexSats = true) (chain : List Block) (st : State) (evs : List Event)
+    (hc : InsLift.InsChain chain) (h : run cfg chain = .ok (st, evs))
+    (i : Nat) (entry : InsEntry) (hi : st.entries[i]? = some entry) :
+    entry.sat = none ↔ ∃ off, AL.get st.seq2sp i = some ⟨OutPoint.unbound, off⟩ := by
+  have hU := run_utxoSat cfg hs chain st evs hc.ok (chainPlain_of_insChain hc) h
+  have hI := (InsLift.run_chainInv cfg chain st evs hc.ok h).1
+  exact unbound_iff_of_utxoSat cfg st hU hI.part i entry hi
 
 end Ord.Index.OnSatLift
